@@ -144,7 +144,7 @@ func Run(args map[string]string) {
 		for p1 := 1; p1 <= 3; p1++ {
 			for p2 := 1; p2 <= 3; p2++ {
 				for s := 0; s < 1<<uint(schedbits); s++ {
-					c := Case{Kind: "race", Race: &Race{P1: p1, P2: p2}}
+					c := Case{Kind: "race", Race: &Race{P1: p1, P2: p2, F1: -1, F2: -1}}
 					for _, p := range pre {
 						c.Hist = append(c.Hist, Delivery{Key: 0, Phase: p, Fault: -1})
 					}
@@ -152,6 +152,36 @@ func Run(args map[string]string) {
 						c.Race.Sched = append(c.Race.Sched, s>>uint(b)&1 == 1)
 					}
 					add(c, "race.exhaustive-schedules")
+				}
+			}
+		}
+	}
+	// races with a database failure at a row / lock operation of one (or both) of the deliveries
+	fbits := hutil.ArgInt(args, "faultschedbits", 3)
+	for _, pre := range prefixes {
+		for p1 := 1; p1 <= 3; p1++ {
+			for p2 := 1; p2 <= 3; p2++ {
+				for f := 0; f < 9; f++ {
+					f1, f2 := -1, -1
+					switch {
+					case f < 4:
+						f1 = f
+					case f < 8:
+						f2 = f - 4
+					default:
+						f1, f2 = rng.Intn(4), rng.Intn(4)
+					}
+					for s := 0; s < 1<<uint(fbits); s++ {
+						c := Case{Kind: "race", Race: &Race{P1: p1, P2: p2, F1: f1, F2: f2}}
+						for _, p := range pre {
+							c.Hist = append(c.Hist, Delivery{Key: 0, Phase: p, Fault: -1})
+						}
+						// spread the few schedule bits over the run: the prefix, then the same bits repeated
+						for b := 0; b < 8; b++ {
+							c.Race.Sched = append(c.Race.Sched, s>>uint(b%fbits)&1 == 1)
+						}
+						add(c, "race.fault-at-each-op")
+					}
 				}
 			}
 		}
